@@ -60,6 +60,10 @@ def iE : Expr → List Item
   | .field a => kwI "field" :: .sp :: iE a
   | .call f as => .tk (.id f) :: .tk (.p .lp) :: (iArgs as ++ [.tk (.p .rp)])
   | .list as => .tk (.p .lb) :: (iArgs as ++ [.tk (.p .rb)])
+  | .key v => [kwI "the", .sp, .tk (.id v)]
+  | .movie v => [kwI "the", .sp, .tk (.id v)]
+  | .the .sys k [] => [kwI "the", .sp, .tk (.id (nameOrUnknown tblSys k))]
+  | .the .special k [] => [kwI "the", .sp, .tk (.id (nameOrUnknown tblSpecial k))]
   | _ => []
 def iArgs : List Expr → List Item
   | [] => []
@@ -95,6 +99,36 @@ theorem optok_text (o : BinOp) (h : o ≠ .starts) : Item.text (.tk o.tok) = opT
 
 theorem optok_ok (o : BinOp) : ItemOk (.tk o.tok) = true := by cases o <;> decide
 
+theorem safe_sp : safeCh ' ' = true := by decide
+theorem safe_rp : safeCh ')' = true := by decide
+theorem safe_nl : safeCh '\n' = true := by decide
+theorem safe_comma : safeCh ',' = true := by decide
+theorem safe_lp : safeCh '(' = true := by decide
+theorem safe_rb : safeCh ']' = true := by decide
+
+theorem sys_idOk (k : Nat) (h : tblSys.any (fun x => x.1 == k) = true) : idOk (nameOrUnknown tblSys k) = true := by
+  have hall : tblSys.all (fun x => idOk (nameOrUnknown tblSys x.1)) = true := by decide +kernel
+  rw [List.any_eq_true] at h
+  obtain ⟨x, hx, hk⟩ := h
+  have hk' : x.1 = k := by simpa using hk
+  have := List.all_eq_true.mp hall x hx
+  rw [hk'] at this
+  exact this
+
+theorem special_idOk (k : Nat) (h : k < 6) : idOk (nameOrUnknown tblSpecial k) = true := by
+  have : k = 0 ∨ k = 1 ∨ k = 2 ∨ k = 3 ∨ k = 4 ∨ k = 5 := by omega
+  rcases this with rfl | rfl | rfl | rfl | rfl | rfl <;> decide +kernel
+
+theorem render_the (x : Spec.Name) : render [kwI "the", .sp, .tk (.id x)] = S "the " ++ x := by
+  simp [render, Item.text, kwI, S]
+
+theorem chain_the (x : Spec.Name) (hid : idOk x = true) (rest : List Char) (h : SafeHd rest) :
+    Chain [kwI "the", .sp, .tk (.id x)] rest = true := by
+  simp only [Chain, Bool.and_eq_true, and_true]
+  refine ⟨okNext_safe (kwI "the") ' ' _ (by decide) safe_sp, rfl, ?_⟩
+  simp only [render, List.flatMap_nil, List.nil_append]
+  exact okNext_safeHd _ _ (by simpa [ItemOk] using hid) h
+
 mutual
 theorem render_iE : ∀ (e : Expr), FragE e = true → render (iE e) = mE e
   | .int k, _ => by simp [iE, render, Item.text, mE]
@@ -128,9 +162,12 @@ theorem render_iE : ∀ (e : Expr), FragE e = true → render (iE e) = mE e
     simp only [iE, render_cons, render_append, render_iArgs as hf, mE]
     simp [render, Item.text, S, P.text]
   | .plist _, hf => by simp [FragE] at hf
-  | .the _ _ _, hf => by simp [FragE] at hf
-  | .key _, hf => by simp [FragE] at hf
-  | .movie _, hf => by simp [FragE] at hf
+  | .the t k as, hf => by
+    cases as with
+    | cons x xs => cases t <;> simp [FragE] at hf
+    | nil => cases t <;> first | (simp [FragE] at hf; done) | (simp only [iE, mE]; exact render_the _)
+  | .key v, _ => by simp only [iE, mE]; exact render_the _
+  | .movie v, _ => by simp only [iE, mE]; exact render_the _
   | .oprop _ _, hf => by simp [FragE] at hf
   | .chunk _ _ _ _, hf => by simp [FragE] at hf
 theorem render_iArgs : ∀ (as : List Expr), FragL as = true → render (iArgs as) = mArgs as
@@ -178,9 +215,18 @@ theorem itoks_iE : ∀ (e : Expr), FragE e = true → itoks (iE e) = prE e
     simp only [FragE] at hf
     simp [iE, itoks, itoks_append, itoks_iArgs as hf, prE]
   | .plist _, hf => by simp [FragE] at hf
-  | .the _ _ _, hf => by simp [FragE] at hf
-  | .key _, hf => by simp [FragE] at hf
-  | .movie _, hf => by simp [FragE] at hf
+  | .the t k as, hf => by
+    cases as with
+    | cons x xs => cases t <;> simp [FragE] at hf
+    | nil =>
+      cases t with
+      | sys => simp [iE, itoks, prE, prThe, kwI, kw]
+      | special =>
+        simp only [FragE, decide_eq_true_eq] at hf
+        simp [iE, itoks, prE, prThe, kwI, kw, hf]
+      | _ => simp [FragE] at hf
+  | .key v, _ => by simp [iE, itoks, prE, kwI, kw]
+  | .movie v, _ => by simp [iE, itoks, prE, kwI, kw]
   | .oprop _ _, hf => by simp [FragE] at hf
   | .chunk _ _ _ _, hf => by simp [FragE] at hf
 theorem itoks_iArgs : ∀ (as : List Expr), FragL as = true → itoks (iArgs as) = prArgs as
@@ -215,18 +261,15 @@ theorem mE_ne_nil : ∀ (e : Expr), FragE e = true → mE e ≠ []
   | .mcall _ _ _, hf => by simp [FragE] at hf
   | .list _, _ => by simp [mE, S]
   | .plist _, hf => by simp [FragE] at hf
-  | .the _ _ _, hf => by simp [FragE] at hf
-  | .key _, hf => by simp [FragE] at hf
-  | .movie _, hf => by simp [FragE] at hf
+  | .the t k as, hf => by
+    cases as with
+    | cons x xs => cases t <;> simp [FragE] at hf
+    | nil => cases t <;> first | (simp [FragE] at hf; done) | simp [mE, S]
+  | .key _, _ => by simp [mE, S]
+  | .movie _, _ => by simp [mE, S]
   | .oprop _ _, hf => by simp [FragE] at hf
   | .chunk _ _ _ _, hf => by simp [FragE] at hf
 
-theorem safe_sp : safeCh ' ' = true := by decide
-theorem safe_rp : safeCh ')' = true := by decide
-theorem safe_nl : safeCh '\n' = true := by decide
-theorem safe_comma : safeCh ',' = true := by decide
-theorem safe_lp : safeCh '(' = true := by decide
-theorem safe_rb : safeCh ']' = true := by decide
 
 mutual
 theorem chain_iE : ∀ (e : Expr), FragE e = true → ∀ (rest : List Char), SafeHd rest → Chain (iE e) rest = true
@@ -323,9 +366,16 @@ theorem chain_iE : ∀ (e : Expr), FragE e = true → ∀ (rest : List Char), Sa
     rw [chain_append, hv]
     simp [Chain, okNext]
   | .plist _, hf, _, _ => by simp [FragE] at hf
-  | .the _ _ _, hf, _, _ => by simp [FragE] at hf
-  | .key _, hf, _, _ => by simp [FragE] at hf
-  | .movie _, hf, _, _ => by simp [FragE] at hf
+  | .the t k as, hf, rest, h => by
+    cases as with
+    | cons x xs => cases t <;> simp [FragE] at hf
+    | nil =>
+      cases t with
+      | sys => simp only [FragE] at hf; simp only [iE]; exact chain_the _ (sys_idOk k hf) rest h
+      | special => simp only [FragE, decide_eq_true_eq] at hf; simp only [iE]; exact chain_the _ (special_idOk k hf) rest h
+      | _ => simp [FragE] at hf
+  | .key v, hf, rest, h => by simp only [FragE] at hf; simp only [iE]; exact chain_the _ hf rest h
+  | .movie v, hf, rest, h => by simp only [FragE] at hf; simp only [iE]; exact chain_the _ hf rest h
   | .oprop _ _, hf, _, _ => by simp [FragE] at hf
   | .chunk _ _ _ _, hf, _, _ => by simp [FragE] at hf
 theorem chain_iArgs : ∀ (as : List Expr), FragL as = true → ∀ (rest : List Char), SafeHd rest → Chain (iArgs as) rest = true
@@ -404,15 +454,27 @@ theorem chain_cons_comma_sp (it : Item) (l : List Item) (rest : List Char) (hi :
   rw [chain_cons_safe it _ rest hi ⟨',', render (.sp :: l) ++ rest, by simp [render, Item.text, P.text], safe_comma⟩]
   exact chain_cons_sp _ _ _ (by decide)
 
-def iS (ind : Nat) : Stmt → List Item
-  | .set lv v => iIndent ind ++ ([kwI "set", .sp] ++ (iE lv ++ ([.sp, .tk (.p .eq), .sp] ++ (iE v ++ [.tk .nl]))))
-  | .call f as => iIndent ind ++ (.tk (.id f) :: ((if as.isEmpty then [] else .sp :: iArgs as) ++ [.tk .nl]))
-  | .exit => iIndent ind ++ [kwI "exit", .tk .nl]
-  | _ => []
-
-def iSs (ind : Nat) : List Stmt → List Item
-  | [] => []
-  | s :: ss => iS ind s ++ iSs ind ss
+mutual
+def iS : Nat → Stmt → List Item
+  | ind, .set lv v => iIndent ind ++ ([kwI "set", .sp] ++ (iE lv ++ ([.sp, .tk (.p .eq), .sp] ++ (iE v ++ [.tk .nl]))))
+  | ind, .call f as => iIndent ind ++ (.tk (.id f) :: ((if as.isEmpty then [] else .sp :: iArgs as) ++ [.tk .nl]))
+  | ind, .exit => iIndent ind ++ [kwI "exit", .tk .nl]
+  | ind, .ifThen c t e =>
+    iIndent ind ++ ([kwI "if", .sp] ++ (iE c ++ ([.sp, kwI "then", .tk .nl] ++ (iSs (ind + 1) t ++
+      ((if e.isEmpty then [] else iIndent ind ++ ([kwI "else", .tk .nl] ++ iSs (ind + 1) e)) ++
+        (iIndent ind ++ [kwI "end", .sp, kwI "if", .tk .nl]))))))
+  | ind, .repeatWhile c b =>
+    iIndent ind ++ ([kwI "repeat", .sp, kwI "while", .sp] ++ (iE c ++ ([.tk .nl] ++ (iSs (ind + 1) b ++
+      (iIndent ind ++ [kwI "end", .sp, kwI "repeat", .tk .nl])))))
+  | ind, .repeatWith v a b down body =>
+    iIndent ind ++ ([kwI "repeat", .sp, kwI "with", .sp] ++ (iE v ++ ([.sp, .tk (.p .eq), .sp] ++ (iE a ++ ([.sp] ++
+      ((if down then [kwI "down", .sp, kwI "to"] else [kwI "to"]) ++ ([.sp] ++ (iE b ++ ([.tk .nl] ++ (iSs (ind + 1) body ++
+        (iIndent ind ++ [kwI "end", .sp, kwI "repeat", .tk .nl])))))))))))
+  | _, _ => []
+def iSs : Nat → List Stmt → List Item
+  | _, [] => []
+  | ind, s :: ss => iS ind s ++ iSs ind ss
+end
 
 theorem fragLv_fragE (lv : Expr) (h : FragLv lv = true) : FragE lv = true := by
   cases lv <;> simp_all [FragLv, FragE]
@@ -504,6 +566,229 @@ theorem chain_iSs (ind : Nat) : ∀ (ss : List Stmt), FragSs ss = true → ∀ (
     simp only [iSs, List.append_assoc]
     rw [chain_iS ind s hf.1, chain_iSs ind ss hf.2]
 
+/-! ### structured statements (`FragX`) -/
+
+/-- the printed form of an expression of the fragment starts with '(' only for an infix operation -/
+theorem mE_not_lp (e : Expr) (hf : FragE e = true) (hn : notInfix e = true) : startsWith (mE e) (S "(") = false := by
+  have hid : ∀ v : Spec.Name, idOk v = true → ∀ r, startsWith (v ++ r) (S "(") = false := by
+    intro v hv r
+    cases v with
+    | nil => simp [idOk] at hv
+    | cons c cs =>
+      simp only [idOk, Bool.and_eq_true] at hv
+      have : c ≠ '(' := by
+        intro e; subst e
+        have : isIdStart '(' = false := by decide
+        rw [this] at hv; simp at hv
+      simp only [startsWith, S]
+      simp [List.isPrefixOf]
+      exact fun e => this e.symm
+  cases e with
+  | int k =>
+    obtain ⟨c, rest, h, hd, _, _⟩ := natStr_head k
+    have : c ≠ '(' := by
+      intro e; subst e
+      have : isAsciiDigit '(' = false := by decide
+      rw [this] at hd; cases hd
+    simp only [mE, h, startsWith, S]
+    simp [List.isPrefixOf]
+    exact fun e => this e.symm
+  | var k v =>
+    simp only [FragE] at hf
+    simpa [mE] using hid v hf []
+  | un o a => cases o <;> simp [mE, startsWith, S, List.isPrefixOf]
+  | bin o a b =>
+    simp only [notInfix, Bool.not_eq_true'] at hn
+    simp [mE, hn, startsWith, S, List.isPrefixOf]
+  | field a => simp [mE, startsWith, S, List.isPrefixOf]
+  | call f as =>
+    simp only [FragE, Bool.and_eq_true] at hf
+    simpa [mE] using hid f hf.1.1.1.1 _
+  | list as => simp [mE, startsWith, S, List.isPrefixOf]
+  | str v => simp [mE, startsWith, S, List.isPrefixOf]
+  | sym v => simp [mE, startsWith, S, List.isPrefixOf]
+  | key v => simp [mE, startsWith, S, List.isPrefixOf]
+  | movie v => simp [mE, startsWith, S, List.isPrefixOf]
+  | the t k as =>
+    cases as with
+    | cons x xs => cases t <;> simp [FragE] at hf
+    | nil => cases t <;> first | (simp [FragE] at hf; done) | simp [mE, startsWith, S, List.isPrefixOf]
+  | _ => simp [FragE] at hf
+
+theorem mCond_eq (c : Expr) (hf : FragE c = true) (hn : notInfix c = true) : mCond c = mE c := by
+  unfold mCond
+  rw [mE_not_lp c hf hn]
+  rfl
+
+/-- an expression followed by an item list whose text starts with a blank / newline -/
+theorem chain_iE_then (e : Expr) (hf : FragE e = true) (c : Char) (hc : safeCh c = true) (X : List Item) (rest : List Char)
+    (hX : ∃ r, render X = c :: r) : Chain (iE e ++ X) rest = Chain X rest := by
+  obtain ⟨r, hr⟩ := hX
+  rw [chain_append, chain_iE e hf (render X ++ rest) ⟨c, r ++ rest, by rw [hr]; rfl, hc⟩, Bool.true_and]
+
+mutual
+theorem render_iX : ∀ (s : Stmt), FragX s = true → ∀ (ind : Nat), render (iS ind s) = mS ind s
+  | .set lv v, hf, ind => render_iS ind _ (by simpa only [FragX] using hf)
+  | .call f as, hf, ind => render_iS ind _ (by simpa only [FragX] using hf)
+  | .exit, _, ind => render_iS ind _ rfl
+  | .ifThen c t e, hf, ind => by
+    simp only [FragX, Bool.and_eq_true] at hf
+    obtain ⟨⟨hc, ht⟩, he⟩ := hf
+    cases hee : e.isEmpty <;>
+      simp [iS, mS, hee, render_append, render_cons, render_indent, render_iE c hc, render_iXs t ht (ind + 1), render_iXs e he (ind + 1),
+        Item.text, kwI, S, render_nil]
+  | .repeatWhile c b, hf, ind => by
+    simp only [FragX, Bool.and_eq_true] at hf
+    obtain ⟨⟨hc, hn⟩, hb⟩ := hf
+    simp [iS, mS, mCond_eq c hc hn, render_append, render_cons, render_indent, render_iE c hc, render_iXs b hb (ind + 1),
+      Item.text, kwI, S, render_nil]
+  | .repeatWith v a b down body, hf, ind => by
+    cases v with
+    | var k v =>
+      cases k with
+      | loc =>
+        simp only [FragX, Bool.and_eq_true] at hf
+        obtain ⟨⟨⟨hv, ha⟩, hb⟩, hbody⟩ := hf
+        cases down <;>
+          simp [iS, iE, mS, mE, render_append, render_cons, render_indent, render_iE a ha, render_iE b hb, render_iXs body hbody (ind + 1),
+            Item.text, kwI, S, render_nil, P.text]
+      | _ => simp [FragX] at hf
+    | _ => simp [FragX] at hf
+  | .put .., hf, _ => by simp [FragX] at hf
+  | .delete _, hf, _ => by simp [FragX] at hf
+  | .hilite _, hf, _ => by simp [FragX] at hf
+  | .mcall .., hf, _ => by simp [FragX] at hf
+  | .tell .., hf, _ => by simp [FragX] at hf
+  | .repeatIn .., hf, _ => by simp [FragX] at hf
+  | .exitRepeat, hf, _ => by simp [FragX] at hf
+theorem render_iXs : ∀ (ss : List Stmt), FragXs ss = true → ∀ (ind : Nat), render (iSs ind ss) = mSs ind ss
+  | [], _, _ => rfl
+  | s :: ss, hf, ind => by
+    simp only [FragXs, Bool.and_eq_true] at hf
+    simp only [iSs, render_append, render_iX s hf.1 ind, render_iXs ss hf.2 ind, mSs]
+end
+
+mutual
+theorem itoks_iX : ∀ (s : Stmt), FragX s = true → ∀ (ind : Nat), itoks (iS ind s) = prS s
+  | .set lv v, hf, ind => itoks_iS ind _ (by simpa only [FragX] using hf)
+  | .call f as, hf, ind => itoks_iS ind _ (by simpa only [FragX] using hf)
+  | .exit, _, ind => itoks_iS ind _ rfl
+  | .ifThen c t e, hf, ind => by
+    simp only [FragX, Bool.and_eq_true] at hf
+    obtain ⟨⟨hc, ht⟩, he⟩ := hf
+    cases hee : e.isEmpty <;>
+      simp [iS, prS, hee, itoks_append, itoks_indent, itoks, itoks_iE c hc, itoks_iXs t ht (ind + 1), itoks_iXs e he (ind + 1), kwI, kw]
+  | .repeatWhile c b, hf, ind => by
+    simp only [FragX, Bool.and_eq_true] at hf
+    obtain ⟨⟨hc, hn⟩, hb⟩ := hf
+    simp [iS, prS, itoks_append, itoks_indent, itoks, itoks_iE c hc, itoks_iXs b hb (ind + 1), kwI, kw]
+  | .repeatWith v a b down body, hf, ind => by
+    cases v with
+    | var k v =>
+      cases k with
+      | loc =>
+        simp only [FragX, Bool.and_eq_true] at hf
+        obtain ⟨⟨⟨hv, ha⟩, hb⟩, hbody⟩ := hf
+        cases down <;>
+          simp [iS, iE, prS, prE, itoks_append, itoks_indent, itoks, itoks_iE a ha, itoks_iE b hb, itoks_iXs body hbody (ind + 1), kwI, kw]
+      | _ => simp [FragX] at hf
+    | _ => simp [FragX] at hf
+  | .put .., hf, _ => by simp [FragX] at hf
+  | .delete _, hf, _ => by simp [FragX] at hf
+  | .hilite _, hf, _ => by simp [FragX] at hf
+  | .mcall .., hf, _ => by simp [FragX] at hf
+  | .tell .., hf, _ => by simp [FragX] at hf
+  | .repeatIn .., hf, _ => by simp [FragX] at hf
+  | .exitRepeat, hf, _ => by simp [FragX] at hf
+theorem itoks_iXs : ∀ (ss : List Stmt), FragXs ss = true → ∀ (ind : Nat), itoks (iSs ind ss) = prSs ss
+  | [], _, _ => rfl
+  | s :: ss, hf, ind => by
+    simp only [FragXs, Bool.and_eq_true] at hf
+    simp only [iSs, itoks_append, itoks_iX s hf.1 ind, itoks_iXs ss hf.2 ind, prSs]
+end
+
+theorem render_sp_head (Y : List Item) : ∃ r, render (.sp :: Y) = ' ' :: r := ⟨render Y, rfl⟩
+theorem render_nl_head (Y : List Item) : ∃ r, render (.tk .nl :: Y) = '\n' :: r := ⟨render Y, rfl⟩
+
+mutual
+theorem chain_iX : ∀ (s : Stmt), FragX s = true → ∀ (ind : Nat) (l : List Item) (rest : List Char),
+    Chain (iS ind s ++ l) rest = Chain l rest
+  | .set lv v, hf, ind, l, rest => chain_iS ind _ (by simpa only [FragX] using hf) l rest
+  | .call f as, hf, ind, l, rest => chain_iS ind _ (by simpa only [FragX] using hf) l rest
+  | .exit, _, ind, l, rest => chain_iS ind _ rfl l rest
+  | .ifThen c t e, hf, ind, l, rest => by
+    simp only [FragX, Bool.and_eq_true] at hf
+    obtain ⟨⟨hc, ht⟩, he⟩ := hf
+    have hend : Chain (iIndent ind ++ (kwI "end" :: .sp :: kwI "if" :: .tk .nl :: l)) rest = Chain l rest := by
+      rw [chain_indent, chain_cons_sp _ _ _ (by decide), chain_cons_nl _ _ _ (by decide)]
+    cases hee : e.isEmpty with
+    | true =>
+      simp only [iS, hee, if_true, List.append_assoc, List.cons_append, List.nil_append, chain_indent]
+      rw [chain_cons_sp _ _ _ (by decide), chain_iE_then c hc ' ' safe_sp _ _ (render_sp_head _), chain_sp,
+        chain_cons_nl _ _ _ (by decide), chain_iXs t ht, hend]
+    | false =>
+      simp only [iS, hee, Bool.false_eq_true, if_false, List.append_assoc, List.cons_append, List.nil_append, chain_indent]
+      rw [chain_cons_sp _ _ _ (by decide), chain_iE_then c hc ' ' safe_sp _ _ (render_sp_head _), chain_sp,
+        chain_cons_nl _ _ _ (by decide), chain_iXs t ht, chain_indent, chain_cons_nl _ _ _ (by decide), chain_iXs e he, hend]
+  | .repeatWhile c b, hf, ind, l, rest => by
+    simp only [FragX, Bool.and_eq_true] at hf
+    obtain ⟨⟨hc, hn⟩, hb⟩ := hf
+    simp only [iS, List.append_assoc, List.cons_append, List.nil_append, chain_indent]
+    rw [chain_cons_sp _ _ _ (by decide), chain_cons_sp _ _ _ (by decide), chain_iE_then c hc '\n' safe_nl _ _ (render_nl_head _),
+      chain_nl, chain_iXs b hb, chain_indent, chain_cons_sp _ _ _ (by decide), chain_cons_nl _ _ _ (by decide)]
+  | .repeatWith v a b down body, hf, ind, l, rest => by
+    cases v with
+    | var k v =>
+      cases k with
+      | loc =>
+        simp only [FragX, Bool.and_eq_true] at hf
+        obtain ⟨⟨⟨hv, ha⟩, hb⟩, hbody⟩ := hf
+        have hend : Chain (iE b ++ (.tk .nl :: (iSs (ind + 1) body ++ (iIndent ind ++ (kwI "end" :: .sp :: kwI "repeat" :: .tk .nl :: l))))) rest
+            = Chain l rest := by
+          rw [chain_iE_then b hb '\n' safe_nl _ _ (render_nl_head _), chain_nl, chain_iXs body hbody, chain_indent,
+            chain_cons_sp _ _ _ (by decide), chain_cons_nl _ _ _ (by decide)]
+        cases down with
+        | false =>
+          simp only [iS, iE, Bool.false_eq_true, if_false, List.append_assoc, List.cons_append, List.nil_append, chain_indent]
+          rw [chain_cons_sp _ _ _ (by decide), chain_cons_sp _ _ _ (by decide), chain_cons_sp _ _ _ (by simpa [ItemOk] using hv),
+            chain_cons_sp _ _ _ (by decide), chain_iE_then a ha ' ' safe_sp _ _ (render_sp_head _), chain_sp,
+            chain_cons_sp _ _ _ (by decide), hend]
+        | true =>
+          simp only [iS, iE, if_true, List.append_assoc, List.cons_append, List.nil_append, chain_indent]
+          rw [chain_cons_sp _ _ _ (by decide), chain_cons_sp _ _ _ (by decide), chain_cons_sp _ _ _ (by simpa [ItemOk] using hv),
+            chain_cons_sp _ _ _ (by decide), chain_iE_then a ha ' ' safe_sp _ _ (render_sp_head _), chain_sp,
+            chain_cons_sp _ _ _ (by decide), chain_cons_sp _ _ _ (by decide), hend]
+      | _ => simp [FragX] at hf
+    | _ => simp [FragX] at hf
+  | .put .., hf, _, _, _ => by simp [FragX] at hf
+  | .delete _, hf, _, _, _ => by simp [FragX] at hf
+  | .hilite _, hf, _, _, _ => by simp [FragX] at hf
+  | .mcall .., hf, _, _, _ => by simp [FragX] at hf
+  | .tell .., hf, _, _, _ => by simp [FragX] at hf
+  | .repeatIn .., hf, _, _, _ => by simp [FragX] at hf
+  | .exitRepeat, hf, _, _, _ => by simp [FragX] at hf
+theorem chain_iXs : ∀ (ss : List Stmt), FragXs ss = true → ∀ (ind : Nat) (l : List Item) (rest : List Char),
+    Chain (iSs ind ss ++ l) rest = Chain l rest
+  | [], _, _, l, rest => rfl
+  | s :: ss, hf, ind, l, rest => by
+    simp only [FragXs, Bool.and_eq_true] at hf
+    simp only [iSs, List.append_assoc]
+    rw [chain_iX s hf.1, chain_iXs ss hf.2]
+end
+
+/-- what the handler / script level needs to know about a body: its items render to the model's text, carry the reference
+    printer's tokens, and are properly delimited -/
+structure BodyLex (body : List Stmt) : Prop where
+  render : render (iSs 1 body) = mSs 1 body
+  itoks : itoks (iSs 1 body) = prSs body
+  chain : ∀ (l : List Item) (rest : List Char), Chain (iSs 1 body ++ l) rest = Chain l rest
+
+theorem bodyLex_flat (body : List Stmt) (h : FragSs body = true) : BodyLex body :=
+  ⟨render_iSs 1 body h, itoks_iSs 1 body h, chain_iSs 1 body h⟩
+
+theorem bodyLex_structured (body : List Stmt) (h : FragXs body = true) : BodyLex body :=
+  ⟨render_iXs body h 1, itoks_iXs body h 1, chain_iXs body h 1⟩
+
 /-- `a, b, c` -/
 def iNames : List Spec.Name → List Item
   | [] => []
@@ -587,29 +872,29 @@ def iHandlers (s : Spec.Script) : List Handler → Bool → List Item
   | [], _ => []
   | h :: hs, first => (if first then [] else [.tk .nl]) ++ (iHandler s h ++ iHandlers s hs false)
 
-theorem render_iHandler (s : Spec.Script) (h : Handler) (hb : FragSs h.body = true) : render (iHandler s h) = mHandler s h := by
+theorem render_iHandler (s : Spec.Script) (h : Handler) (hb : BodyLex h.body) : render (iHandler s h) = mHandler s h := by
   unfold iHandler mHandler
   cases hp : h.params.isEmpty <;>
-    simp [hp, render_append, render_cons, render_iSs 1 h.body hb, render_iNames, render_iHGlobals, Item.text, kwI, S, render_nil]
+    simp [hp, render_append, render_cons, hb.render, render_iNames, render_iHGlobals, Item.text, kwI, S, render_nil]
 
-theorem itoks_iHandler (s : Spec.Script) (h : Handler) (hb : FragSs h.body = true) : itoks (iHandler s h) = dHandler s h := by
+theorem itoks_iHandler (s : Spec.Script) (h : Handler) (hb : BodyLex h.body) : itoks (iHandler s h) = dHandler s h := by
   unfold iHandler dHandler
   cases hp : h.params.isEmpty with
   | true =>
     have : h.params = [] := List.isEmpty_iff.mp hp
-    simp [hp, this, itoks_append, itoks, itoks_iSs 1 h.body hb, itoks_iHGlobals, kwI, kw, prNames]
+    simp [hp, this, itoks_append, itoks, hb.itoks, itoks_iHGlobals, kwI, kw, prNames]
   | false =>
-    simp [hp, itoks_append, itoks, itoks_iSs 1 h.body hb, itoks_iNames, itoks_iHGlobals, kwI, kw]
+    simp [hp, itoks_append, itoks, hb.itoks, itoks_iNames, itoks_iHGlobals, kwI, kw]
 
 theorem hGlobalsSorted_mem (s : Spec.Script) (h : Handler) (g : Spec.Name) (hg : g ∈ hGlobalsSorted s h) : g ∈ h.globalsUsed s.globals :=
   (isort_perm _).mem_iff.mp hg
 
-theorem chain_iHandler (s : Spec.Script) (h : Handler) (hb : FragSs h.body = true) (hn : idOk h.name = true) (hp : ∀ v ∈ h.params, idOk v = true)
+theorem chain_iHandler (s : Spec.Script) (h : Handler) (hb : BodyLex h.body) (hn : idOk h.name = true) (hp : ∀ v ∈ h.params, idOk v = true)
     (hgl : ∀ g ∈ h.globalsUsed s.globals, idOk g = true)
     (l : List Item) (rest : List Char) : Chain (iHandler s h ++ l) rest = Chain l rest := by
   have hbody : ∀ l', Chain (iHGlobals (hGlobalsSorted s h) ++ (iSs 1 h.body ++ (kwI "end" :: .tk .nl :: l'))) rest = Chain l' rest := by
     intro l'
-    rw [chain_iHGlobals _ (fun g hg => hgl g (hGlobalsSorted_mem s h g hg)), chain_iSs 1 h.body hb, chain_cons_nl _ _ _ (by decide)]
+    rw [chain_iHGlobals _ (fun g hg => hgl g (hGlobalsSorted_mem s h g hg)), hb.chain, chain_cons_nl _ _ _ (by decide)]
   unfold iHandler
   cases hpe : h.params.isEmpty with
   | true =>
@@ -619,14 +904,14 @@ theorem chain_iHandler (s : Spec.Script) (h : Handler) (hb : FragSs h.body = tru
     simp only [Bool.false_eq_true, if_false, List.append_assoc, List.cons_append, List.nil_append]
     rw [chain_cons_sp _ _ _ (by decide), chain_cons_sp _ _ _ (by simpa [ItemOk] using hn), chain_iNames h.params hp, hbody]
 
-theorem render_iHandlers (s : Spec.Script) : ∀ (hs : List Handler) (first : Bool), (∀ h ∈ hs, FragSs h.body = true) →
+theorem render_iHandlers (s : Spec.Script) : ∀ (hs : List Handler) (first : Bool), (∀ h ∈ hs, BodyLex h.body) →
     render (iHandlers s hs first) = mHandlers s hs first
   | [], _, _ => rfl
   | h :: hs, first, hf => by
     have ih := render_iHandlers s hs false (fun x hx => hf x (by simp [hx]))
     cases first <;> simp [iHandlers, mHandlers, render_append, render_cons, render_iHandler s h (hf h (by simp)), ih, Item.text, S, render_nil]
 
-theorem itoks_iHandlers (s : Spec.Script) : ∀ (hs : List Handler) (first : Bool), (∀ h ∈ hs, FragSs h.body = true) →
+theorem itoks_iHandlers (s : Spec.Script) : ∀ (hs : List Handler) (first : Bool), (∀ h ∈ hs, BodyLex h.body) →
     itoks (iHandlers s hs first) = dHandlers s hs first
   | [], _, _ => rfl
   | h :: hs, first, hf => by
@@ -634,7 +919,7 @@ theorem itoks_iHandlers (s : Spec.Script) : ∀ (hs : List Handler) (first : Boo
     cases first <;> simp [iHandlers, dHandlers, itoks_append, itoks, itoks_iHandler s h (hf h (by simp)), ih]
 
 theorem chain_iHandlers (s : Spec.Script) : ∀ (hs : List Handler) (first : Bool),
-    (∀ h ∈ hs, FragSs h.body = true ∧ idOk h.name = true ∧ (∀ v ∈ h.params, idOk v = true) ∧ ∀ g ∈ h.globalsUsed s.globals, idOk g = true) →
+    (∀ h ∈ hs, BodyLex h.body ∧ idOk h.name = true ∧ (∀ v ∈ h.params, idOk v = true) ∧ ∀ g ∈ h.globalsUsed s.globals, idOk g = true) →
     Chain (iHandlers s hs first) [] = true
   | [], _, _ => rfl
   | h :: hs, first, hf => by
@@ -685,8 +970,33 @@ theorem fragScript_spec (s : Spec.Script) (hf : FragScript s = true) :
   obtain ⟨_, a, b, c, _, d⟩ := fragH_spec s h (h4 h hh)
   exact ⟨c, a, b, d⟩
 
-theorem render_iScript (s : Spec.Script) (hf : FragScript s = true) : render (iScript s) = mText s := by
-  obtain ⟨_, _, _, hH⟩ := fragScript_spec s hf
+/-- what the lexing of the whole text needs: identifiers everywhere, bodies with `BodyLex` -/
+def ScriptLex (s : Spec.Script) : Prop :=
+  s.factory = [] ∧ (∀ v ∈ s.props, idOk v = true) ∧ (∀ g ∈ s.globals, idOk g = true) ∧
+    ∀ h ∈ s.handlers, BodyLex h.body ∧ idOk h.name = true ∧ (∀ v ∈ h.params, idOk v = true) ∧
+      ∀ g ∈ h.globalsUsed s.globals, idOk g = true
+
+theorem scriptLex_of_frag (s : Spec.Script) (hf : FragScript s = true) : ScriptLex s := by
+  obtain ⟨h1, h2, h3, h4⟩ := fragScript_spec s hf
+  exact ⟨h1, h2, h3, fun h hh => ⟨bodyLex_flat h.body (h4 h hh).1, (h4 h hh).2⟩⟩
+
+theorem fragHX_spec (s : Spec.Script) (h : Handler) (hf : FragHX s h = true) :
+    h.isMethod = false ∧ idOk h.name = true ∧ (∀ v ∈ h.params, idOk v = true) ∧ FragXs h.body = true ∧
+      (∀ v ∈ Stmt.varsList .prop h.body, s.props.contains v = true) ∧ ∀ g ∈ h.globalsUsed s.globals, idOk g = true := by
+  simp only [FragHX, Bool.and_eq_true, Bool.not_eq_true', List.all_eq_true] at hf
+  obtain ⟨⟨⟨⟨⟨a, b⟩, c⟩, d⟩, e⟩, f⟩ := hf
+  exact ⟨a, b, c, d, e, f⟩
+
+theorem scriptLex_of_fragX (s : Spec.Script) (hf : FragScriptX s = true) : ScriptLex s := by
+  simp only [FragScriptX, Bool.and_eq_true, List.all_eq_true, List.isEmpty_iff] at hf
+  obtain ⟨⟨⟨h1, h2⟩, h3⟩, h4⟩ := hf
+  refine ⟨h1, h2, h3, ?_⟩
+  intro h hh
+  obtain ⟨_, a, b, c, _, d⟩ := fragHX_spec s h (h4 h hh)
+  exact ⟨bodyLex_structured h.body c, a, b, d⟩
+
+theorem render_iScript (s : Spec.Script) (hf : ScriptLex s) : render (iScript s) = mText s := by
+  obtain ⟨_, _, _, hH⟩ := hf
   unfold iScript mText
   simp only [render_append, render_iHandlers s s.handlers true (fun h hh => (hH h hh).1)]
   congr 1
@@ -698,8 +1008,8 @@ theorem render_iScript (s : Spec.Script) (hf : FragScript s = true) : render (iS
     · simp [render_append, render_iGlobals, render_cons, Item.text, S, render_nil]
     · rfl
 
-theorem itoks_iScript (s : Spec.Script) (hf : FragScript s = true) : itoks (iScript s) = dToks s := by
-  obtain ⟨_, _, _, hH⟩ := fragScript_spec s hf
+theorem itoks_iScript (s : Spec.Script) (hf : ScriptLex s) : itoks (iScript s) = dToks s := by
+  obtain ⟨_, _, _, hH⟩ := hf
   unfold iScript dToks
   simp only [itoks_append, itoks_iHandlers s s.handlers true (fun h hh => (hH h hh).1)]
   congr 1
@@ -711,8 +1021,8 @@ theorem itoks_iScript (s : Spec.Script) (hf : FragScript s = true) : itoks (iScr
     · simp [itoks_append, itoks_iGlobals, itoks]
     · rfl
 
-theorem chain_iScript (s : Spec.Script) (hf : FragScript s = true) : Chain (iScript s) [] = true := by
-  obtain ⟨_, hP, hG, hH⟩ := fragScript_spec s hf
+theorem chain_iScript (s : Spec.Script) (hf : ScriptLex s) : Chain (iScript s) [] = true := by
+  obtain ⟨_, hP, hG, hH⟩ := hf
   have h3 : Chain (iHandlers s s.handlers true) [] = true := chain_iHandlers s s.handlers true hH
   have h2 : Chain ((if s.globals.length > 0 then iGlobals s.globals ++ [.tk .nl] else []) ++ iHandlers s s.handlers true) [] = true := by
     split
@@ -727,9 +1037,16 @@ theorem chain_iScript (s : Spec.Script) (hf : FragScript s = true) : Chain (iScr
     exact h2
   · simpa using h2
 
-/-- **the model's text lexes to the reference printer's tokens (decompiler layout)** -/
-theorem lex_mText (s : Spec.Script) (hf : FragScript s = true) : lex (mText s) = some (dToks s) := by
+/-- **the model's text lexes to the reference printer's tokens (decompiler layout)**, for any script with `ScriptLex` -/
+theorem lex_mTextg (s : Spec.Script) (hf : ScriptLex s) : lex (mText s) = some (dToks s) := by
   rw [← render_iScript s hf, ← itoks_iScript s hf]
   exact lex_render_items _ (chain_iScript s hf)
+
+theorem lex_mText (s : Spec.Script) (hf : FragScript s = true) : lex (mText s) = some (dToks s) :=
+  lex_mTextg s (scriptLex_of_frag s hf)
+
+/-- the same for structured bodies -/
+theorem lex_mText_structured (s : Spec.Script) (hf : FragScriptX s = true) : lex (mText s) = some (dToks s) :=
+  lex_mTextg s (scriptLex_of_fragX s hf)
 
 end Drx.Link
